@@ -97,10 +97,16 @@ class C10(Prop):
             k = rng.randint(1, 12)
             more.append({'data': lang.gen_trace(rng, names, k), 't': jitter_stamps(rng, k, rng.choice([0.0, 50.0]))})
         self._more = more
-        return {'formula': f, 'more': more, 'pastify': (not past), 'pre': lang.gen_trace(rng, names, pre) if pre else
+        case = {'formula': f, 'more': more, 'pastify': (not past), 'pre': lang.gen_trace(rng, names, pre) if pre else
                 dict((k, []) for k in names), 'post': lang.gen_trace(rng, names, post),
                 'pre_t': jitter_stamps(rng, pre), 'post_t': jitter_stamps(rng, post, rng.choice([0.0, 100.0])),
                 'kind': rng.choice(['dt', 'dt_on']), 'sub': sub}
+        if len(names) >= 2 and rng.random() < 0.25:
+            # an update that fails part-way (one input is None) is an update fed before reset() too: as the first
+            # update of the object, as the first one after a reset(), or after some good ones
+            case['failing'] = {'where': rng.choice(['first', 'first', 'after-pre']), 'var': rng.choice(names),
+                               'values': dict((k, rng.choice(lang.SMALL)) for k in names)}
+        return case
 
     def sd(self, case):
         f = case['formula']
@@ -141,9 +147,22 @@ class C10(Prop):
         except Exception as e:
             v.skip = 'fresh monitor raised %s' % type(e).__name__
             return v
+        fl = case.get('failing')
+
+        def failing_update(mon, t):
+            try:
+                mon.update(t, [(k, None if k == fl['var'] else fl['values'][k]) for k in names])
+                v.info['failing-update-returned'] = 1
+            except Exception:
+                v.info['failing-update-raised'] = 1
         try:
             m = drive.Mon(case['kind'], sd, pastify=case['pastify'])
-            self.feed(m, names, case['pre'], case['pre_t'])
+            if fl and fl['where'] == 'first':
+                failing_update(m, 0)
+            else:
+                self.feed(m, names, case['pre'], case['pre_t'])
+                if fl:
+                    failing_update(m, (case['pre_t'][-1] + 1) if npre else 0)
         except Exception as e:
             v.skip = 'pre-reset history raised %s' % type(e).__name__
             return v
@@ -185,6 +204,9 @@ class C10(Prop):
                 break
             try:
                 m.reset()
+                if fl and fl['where'] == 'first':
+                    failing_update(m, 0)            # the first update after a reset() fails; reset() again
+                    m.reset()
                 got = self.feed(m, names, ep['data'], ep['t'])
             except Exception as e:
                 v.bad('reset-round-raises:' + type(e).__name__, '%s: reset() #%d + updates raised %s: %s' % (
